@@ -59,10 +59,11 @@ def boxes_for(rng, rshape, rich):
         lo = [rng.randint(1, v - 2) for v in n]
         hi = [rng.randint(l + 1, v - 1) for l, v in zip(lo, n)]
         B.append(("interior", [[l, h] for l, h in zip(lo, hi)]))
-        B.append(("interior_max", [[1, v - 1] for v in n]))
+        if rich or rng.random() < 0.5:
+            B.append(("interior_max", [[1, v - 1] for v in n]))
     corners = list(itertools.product((0, 1), repeat=3))
     rng.shuffle(corners)
-    for cr in corners[: (8 if rich else 2)]:
+    for cr in corners[: (8 if rich else 1)]:
         B.append(("corner", [[0, 1] if s == 0 else [v - 1, v] for s, v in zip(cr, n)]))
     # boxes touching exactly one face / one edge
     for _ in range(3 if rich else 2):
@@ -123,7 +124,7 @@ def plans(ctx):
         dict(kinds=[(P, P), ("pml", "pml"), (P, P)], sym=(-1, -1, 1), nonuni=True),  # symmetric periodic axes: min halo zeroed / mirrored
         dict(kinds=[("bloch", "bloch"), ("pml", "pec"), ("bloch", "bloch")], cplx=True, kvec=[K1, 0.0, 1.5 * K1]),
         dict(kinds=[("bloch", "bloch"), (P, P), ("pml", "pml")], sym=(0, -1, -1), cplx=True, kvec=[K1, 0.0, 0.0], nonuni=True),
-        dict(kinds=[("pml", "pml"), (P, P), ("pec", "pmc")], mode="forward"),
+        dict(kinds=[("pml", "pml"), (P, P), ("pec", "pmc")], mode="forward", rshape=[3, 3, 3]),
     ]
     t = q + [
         dict(kinds=[(P, P), (P, P), (P, P)], rich=True),
@@ -184,10 +185,21 @@ def shp(t):
     return f"({t[0]}, {t[1]}, {t[2]})%nat"
 
 
+def ql(x):
+    """exact rational literal of a float; hexadecimal digits for long mantissas (much faster to parse in Coq)"""
+    f = core.frac(float(x))
+    if f == 0:
+        return "0%Qc"
+    if abs(f.numerator) < 10 ** 6 and f.denominator < 10 ** 6:
+        return f"(q ({f.numerator}) ({f.denominator}))"
+    sign = "-" if f.numerator < 0 else ""
+    return f"(q ({sign}{hex(abs(f.numerator))}) ({hex(f.denominator)}))"
+
+
 def qc(x, cplx):
     if cplx:
-        return f"({qlit(float(np.real(x)))}, {qlit(float(np.imag(x)))})"
-    return qlit(float(np.real(x)))
+        return f"({ql(np.real(x))}, {ql(np.imag(x))})"
+    return ql(np.real(x))
 
 
 def l4(a, cplx):
@@ -240,11 +252,11 @@ def det_expr(case, out, d):
     if cplx:
         im = fvals(o["im"])
         sc = max([abs(v) for v in re + im] + [1e-300])
-        return f"clist_close_abs {TOL} {qlit(sc)} {model} {lst(re, qlit)} {lst(im, qlit)}"
+        return f"clist_close_abs {TOL} {ql(sc)} {model} {lst(re, ql)} {lst(im, ql)}"
     if exactness(case, out):
-        return f"qlist_eqb {model} {lst(re, qlit)}"
+        return f"qlist_eqb {model} {lst(re, ql)}"
     sc = max([abs(v) for v in re] + [1e-300])
-    return f"qlist_close_abs {TOL} {qlit(sc)} {model} {lst(re, qlit)}"
+    return f"qlist_close_abs {TOL} {ql(sc)} {model} {lst(re, ql)}"
 
 
 def coq_expr(case, out):
